@@ -491,7 +491,7 @@ def rule_VW(run: Run) -> RuleResult:
                 if isinstance(x, Sym) and x.head == "kw:value" and x.args:
                     x = x.args[0]
                 xk = x.key()
-                if isinstance(x, (Const, Fn)) or (isinstance(x, Sym) and (x.head in ("ext", "name", "class", "global", "key") or xk.startswith(("key(", "fstr(", "call:str(", "call:repr(", "call:functools.partial(", "partial(", "call:tuple(", "Seq[")))):
+                if isinstance(x, (Const, Fn, Coll, Seq)) or (isinstance(x, Sym) and (x.head in ("ext", "name", "class", "global", "key") or xk.startswith(("key(", "fstr(", "call:str(", "call:repr(", "call:functools.partial(", "partial(", "call:tuple(", "Seq[")))):
                     continue            # a literal, a function, a class of the standard library, a dictionary key: no expression
                 if cls is None and xk.startswith("proj0(") and isinstance(x, Sym) and x.args and _only_mapped_over_items(m, fn, x.args[0].key()):
                     continue            # the key of a dictionary item handed to a private helper
@@ -512,6 +512,50 @@ def rule_VW(run: Run) -> RuleResult:
     if n < 2:
         raise AnalysisError(f"R-VW: only {n} Value(x) constructions of a variable found")
     return res
+
+
+def _nonempty_display(v) -> bool:
+    if isinstance(v, (ast.List, ast.Tuple)):
+        return any(not isinstance(e, ast.Starred) for e in v.elts)
+    if isinstance(v, (ast.ListComp, ast.GeneratorExp)) and len(v.generators) == 1 and not v.generators[0].ifs and not v.generators[0].is_async:
+        return _nonempty_display(v.generators[0].iter)
+    if isinstance(v, ast.Call) and isinstance(v.func, ast.Name) and v.func.id in ("list", "tuple") and len(v.args) == 1 and not v.keywords:
+        return _nonempty_display(v.args[0])
+    return False
+
+
+_SHRINKING = ("pop", "clear", "remove", "popitem", "discard", "__delitem__")
+
+
+def _nonempty_by_construction(ci, field: str) -> bool:
+    """``self.<field>`` is stored only by ``__init__`` (one store, a display / comprehension with at least one fixed element) and no method of the
+    class hierarchy shrinks it, deletes from it or re-binds it."""
+    stores = []
+    for kc in ci.mro():
+        for mn, fn in kc.methods.items():
+            sn = astu.first_param(fn) or "self"
+            for x in ast.walk(fn):
+                tgts = []
+                if isinstance(x, ast.Assign):
+                    tgts = x.targets
+                elif isinstance(x, (ast.AnnAssign, ast.AugAssign)):
+                    tgts = [x.target]
+                elif isinstance(x, ast.Delete):
+                    tgts = x.targets
+                for t in tgts:
+                    for z in ast.walk(t):
+                        if isinstance(z, ast.Attribute) and z.attr == field and isinstance(z.value, ast.Name) and z.value.id == sn:
+                            stores.append((mn, x, t))
+                if isinstance(x, ast.Call) and isinstance(x.func, ast.Attribute) and x.func.attr in _SHRINKING and isinstance(x.func.value, ast.Attribute) \
+                        and x.func.value.attr == field:
+                    return False
+                if isinstance(x, ast.Call) and astu.callee_name(x) in ("setattr", "delattr", "object.__setattr__") and not (
+                        len(x.args) >= 2 and isinstance(x.args[1], ast.Constant) and x.args[1].value != field):
+                    return False
+    if len(stores) != 1:
+        return False
+    mn, st, tgt = stores[0]
+    return mn == "__init__" and isinstance(st, (ast.Assign, ast.AnnAssign)) and isinstance(tgt, ast.Attribute) and st.value is not None and _nonempty_display(st.value)
 
 
 def rule_TB(run: Run) -> RuleResult:
@@ -558,6 +602,20 @@ def rule_TB(run: Run) -> RuleResult:
             rets = [r_ for r_ in astu.walk_no_nested(bfn) if isinstance(r_, ast.Return)]
             if rets and all(isinstance(r_.value, ast.Constant) and r_.value.value is True for r_ in rets):
                 hits = []       # __bool__ that always says True (it takes precedence over __len__): still always truthy
+        lfn = ci.methods.get("__len__")
+        if hits == ["__len__"] and lfn is not None:
+            rets = [r_ for r_ in astu.walk_no_nested(lfn) if isinstance(r_, ast.Return)]
+            sn_ = astu.first_param(lfn) or "self"
+            flds = set()
+            for r_ in rets:
+                v_ = r_.value
+                if isinstance(v_, ast.Call) and isinstance(v_.func, ast.Name) and v_.func.id == "len" and len(v_.args) == 1 and isinstance(v_.args[0], ast.Attribute) \
+                        and isinstance(v_.args[0].value, ast.Name) and v_.args[0].value.id == sn_:
+                    flds.add(v_.args[0].attr)
+                else:
+                    flds.add(None)
+            if rets and None not in flds and all(_nonempty_by_construction(ci, f_) for f_ in flds):
+                hits = []       # the length of a collection that holds at least one element from construction on: never 0
         res.add(f"{ci.qualname}:always truthy (no __bool__ / __len__)", not hits, ci.module.relpath, ci.methods[hits[0]].lineno if hits else ci.node.lineno,
                 "inherits object truthiness" if not hits else f"defines {hits}: instances for which it returns 0/False are taken for 'not given' by `x or fallback`", nec)
     res.count("classes", n)
